@@ -96,6 +96,7 @@ func drawC09(t *rapid.T) caseC09 {
 		total := 0
 		for i := range l.Steps {
 			if s := l.Steps[i].Seg; s != nil {
+				l.Steps[i].More = nil
 				if total+s.Len > 150000 {
 					s.Len = 100
 				}
@@ -201,7 +202,7 @@ func runWriteScenario(c caseC09, w io.Writer) (calls []callResult, data []byte, 
 			}
 			switch st.Op {
 			case "write":
-				p := gen.Recipe{*st.Seg}.Expand()
+				p := st.payload()
 				data = append(data, p...)
 				call("Write", func() error { _, err := lw.Write(p); return err })
 			case "write0":
